@@ -931,11 +931,11 @@ pub fn run_c20_case(c: &LoopCase, stats: Option<&mut Stats>, sample_src: Option<
   let n = d0.calls.len();
   let sends0: Vec<Vec<Event>> = d0.calls.iter().filter_map(|c| match &c.kind { CallKind::Send { evs } if !c.failed => Some(evs.clone()), _ => None }).collect();
   let mut ks: Vec<usize> = (1..=n).collect();
-  if n > 64 {
-    // all of the first 64 calls, a generated subset beyond
+  if n > 256 {
+    // all of the first 256 calls, a generated subset beyond
     if let Some(src) = sample_src {
-      let mut keep: Vec<usize> = (1..=64).collect();
-      for k in 65..=n {
+      let mut keep: Vec<usize> = (1..=256).collect();
+      for k in 257..=n {
         if src.chance(25) {
           keep.push(k);
         }
@@ -987,11 +987,35 @@ pub fn run_c20_case(c: &LoopCase, stats: Option<&mut Stats>, sample_src: Option<
   Ok((injected, after_send))
 }
 
+// index (1-based) of the driver call that follows the scripted actions of an interrupt-storm
+// case: register + per arrival (poll + reads + sends + Busy) + one poll per interruption + 1.
+// Computed with the twin mapper instead of a fault-free run (which would sleep).
+fn run_loop_prefix_count(c: &LoopCase) -> ((), usize) {
+  let mut twin = Mapper::for_layout(&c.layout);
+  let mut calls = 1usize; // register_poll
+  for a in &c.script.actions {
+    match a {
+      Action::Arrive { kb, .. } => {
+        calls += 1; // poll
+        for e in c.script.kb_events.iter().take(*kb) {
+          calls += 1; // next_keyboard -> One
+          if !twin.step(e.clone()).events.is_empty() {
+            calls += 1; // send
+          }
+        }
+        calls += 1; // next_keyboard -> Busy
+      }
+      _ => calls += 1, // poll returning Interrupted / TimedOut
+    }
+  }
+  ((), calls + 1)
+}
+
 pub fn check_c20(cfg: &RunCfg, _findings: &Findings) -> Report {
   let mut rep = Report::new(
     "C20",
     "fault_enumeration",
-    "case = (layout, key history, schedule) x index k of the driver call (register_poll, poll, next_keyboard, next_tablet or send) that fails with a unique marker: every k up to 64 calls, a generated subset beyond; oracle = the loop returns an error carrying the marker, makes no further driver call, and the writes before the fault are a prefix of the fault-free run's writes; evaluations = injected faults; non-trivial = a fault that hits after at least one successful write; distinct = hash of (layout, script, k)",
+    "case = (layout, key history, schedule) x index k of the driver call (register_poll, poll, next_keyboard, next_tablet or send) that fails with a unique marker: every k up to 256 calls, a generated quarter beyond; oracle = the loop returns an error carrying the marker, makes no further driver call, and the writes before the fault are a prefix of the fault-free run's writes; evaluations = injected faults; non-trivial = a fault that hits after at least one successful write; distinct = hash of (layout, script, k)",
   );
   let quick = cfg.tier == Tier::Quick;
   let run = |c: &LoopCase| -> Result<(), Violation> { run_c20_case(c, None, None).map(|_| ()) };
@@ -1041,6 +1065,57 @@ pub fn check_c20(cfg: &RunCfg, _findings: &Findings) -> Report {
   // evaluations = injected faults (measured)
   st.evaluations = st.counters.get("faults-injected").cloned().unwrap_or(0);
   rep.stats.merge(st);
+  if fail.is_none() {
+    // interrupt-storm slice: two (three) interruptions in a row put the real loop into its
+    // back-off sleep (4 s, 8 s); the call after that fails. 16 cases in parallel, one fault each.
+    let results: Vec<Option<(LoopCase, Violation)>> = par_map(16, 16, |i| {
+      use crate::keys::KeyCode::*;
+      let layout = Layout { mappings: vec![
+        Mapping { from: vec![A], to: vec![F13], repeat: if i % 4 == 1 { Repeat::Special { keys: vec![F20], delay_ms: 9_000, interval_ms: 50 } } else { Repeat::Normal }, absorbing: vec![] },
+      ] };
+      // variants: idle with nothing held / a key held / a repeat pending; the failing call is a
+      // poll, or the read / write after a device event that follows the storm
+      let hold = i % 4 >= 2;
+      let kb: Vec<Event> = if i % 4 == 0 { vec![] } else if hold { vec![Event::Pressed(B), Event::Pressed(A)] } else { vec![Event::Pressed(A)] };
+      let mut actions: Vec<Action> = Vec::new();
+      if !kb.is_empty() {
+        actions.push(Action::Arrive { kb: kb.len(), tablet: vec![], tablet_first: false, mid: vec![], spurious_kb: false });
+      }
+      actions.push(Action::Interrupted);
+      actions.push(Action::Interrupted);
+      let script = Script { kb_events: kb.clone(), actions, end_in_same_drain: false, real_sleep: false, stall: None };
+      let c = LoopCase { layout, script, family: "interrupt-storm".into() };
+      // calls: register, [poll, reads and sends of the arrival, Busy], poll (EINTR), poll (EINTR), poll <- fails
+      let (_r0, d0) = run_loop_prefix_count(&c);
+      let k = d0;
+      let (res, d) = run_loop(&c.layout, &c.script, Some(k));
+      let marker = fault_marker(k);
+      if !d.fault_hit {
+        // the call sequence differs from the expected one (fewer calls): no verdict
+        return None;
+      }
+      let v = match &res {
+        Ok(()) => Some(Violation::new("error-swallowed", format!("call #{} (the poll after two interruptions in a row) failed with '{}' but the loop returned Ok(()) | trace: {}", k, marker, trace_text(&d.calls).join("; ")))),
+        Err(e) if !e.contains(&marker) => Some(Violation::new("wrong-error-returned", format!("call #{} failed with '{}' but the loop returned Err('{}')", k, marker, e))),
+        _ => {
+          let idx = d.calls.iter().position(|c| c.failed).unwrap_or(0);
+          if d.calls[idx + 1..].iter().any(|c| matches!(c.kind, CallKind::Send { .. })) {
+            Some(Violation::new("write-after-failure", format!("call #{} failed but the loop wrote afterwards | trace: {}", k, trace_text(&d.calls).join("; "))))
+          } else {
+            None
+          }
+        }
+      };
+      v.map(|v| (c, v))
+    });
+    rep.stats.evaluations += 16;
+    rep.stats.count("interrupt-storm-cases", 16);
+    if let Some((c, v)) = results.into_iter().flatten().next() {
+      let path = write_replay("C20", &v, &json!({"case": c.to_json(), "note": "interrupt-storm slice: the fault is injected at the poll that follows two interruptions in a row"}));
+      rep.violations.push((v, path));
+      return rep;
+    }
+  }
   if let Some(f) = fail {
     if let Some((c, _)) = f.case {
       let kind = f.violation.kind.clone();
